@@ -3,8 +3,10 @@ C05 — the written entity's media type is produced by the route and best for Ac
 
 `Mime.entityWriter a P reg d` is the model of `Response.EntityWriter` (response.go:84) for a request
 whose raw Accept header value is `a` ("" when absent), on a route that Produces `P`, with the
-registry keys `reg` and `DefaultResponseMimeType = d`; it returns the LIST OF POSSIBLE writers (the
-substring fallback of `accessorAt` ranges over a Go map), `[]` meaning 406.  It is tied to /repo by
+registry keys `reg` and `DefaultResponseMimeType = d`; it returns the writer as a list: `[]` means
+406, otherwise any two elements are equal (`C05_function` — since 8b400b4 the reverse lookup of
+`accessorAt` is a function of the value: the registered key that occurs first in it, the longest of
+those that start there, whatever the iteration order of the Go map).  It is tied to /repo by
 the correspondence stream `mime`.  `Spec.best` / `Spec.c05Holds` are the property; the same
 `c05Holds` is evaluated by the driver on what the real code answered.
 
@@ -19,11 +21,22 @@ force; witnesses below, replayed on the real code by the check on every run):
   F07b  `Spec.F07b a P reg`  : non-empty header that the router admits although none of its
                                well-formed ranges is satisfiable; by `C05_F07b_class` that means: an
                                element the router admitted on carries an unparsable q (the router
-                               ignores q, `sortedMimes` drops the range).  `accessorAt(<raw header>)`
-                               then answers with ANY registered key that is a substring of the header
-                               (map iteration order decides among several; possibly not produced), and
-                               failing that with the default type (response.go:107-131) — possibly not
-                               produced either, or without a writer (406).
+                               ignores q, `sortedMimes` drops the range).  What the code does there
+                               is, since 8b400b4, a FUNCTION of the request (`C05_function`,
+                               `C05_F07b_inside`), and still not what the property demands:
+                               (1) `accessorAt(<raw header>)` answers with the registered key that
+                                   occurs FIRST in the raw header value (the longest of those that
+                                   start there) — produced or not: `application/xml,application/json;q=x`
+                                   on a JSON-only route is answered application/xml
+                                   (`C05_F07b_witness`); when that key happens to be produced the
+                                   property holds (`C05_F07b_key_produced`; the former witness
+                                   `application/json;q=x,application/xml`, which the unrepaired
+                                   lookup answered in map iteration order, is such a request:
+                                   `C05_F07b_order_fixed`);
+                               (2) when no registered key occurs in the header (`*/*;q=x`) the
+                                   default type answers (response.go:107-131) — possibly not
+                                   produced, or without a writer (406): `C05_F07b_witness_default`,
+                                   `C05_F07b_witness_zip`, unchanged by 8b400b4.
 
   (F07 — no Accept header ∧ DefaultResponseMimeType ∈ {JSON, XML, ZIP}: the default overrode
   Produces — was repaired by d89a7d4: `EntityWriter` ranks a missing header as `*/*`, as the router
@@ -34,11 +47,13 @@ force; witnesses below, replayed on the real code by the check on every run):
 The full statements, false today only because of F07b (witnesses `C05_F07b_witness…`):
   theorem C05_member   : wfMime P reg → routerAdmits a P → ∀ m ∈ entityWriter a P reg d, m ∈ P ∧ m ∈ reg
   theorem C05_best     : wfMime P reg → routerAdmits a P → ∃ b, best a P reg = some b ∧ entityWriter a P reg d = [b]
-  theorem C05_function : wfMime P reg → routerAdmits a P →
-                           ∀ m ∈ entityWriter a P reg d, ∀ m' ∈ entityWriter a P reg d, m = m'
 Proved here:
   C05_member_partial, C05_best_partial,
-  C05_function_partial, C05_no406_partial  under ¬F07b, nothing else (no assumption on the default type)
+  C05_no406_partial                        under ¬F07b, nothing else (no assumption on the default type)
+  C05_function                             FULL since 8b400b4 (it was `C05_function_partial`, under ¬F07b): every
+                                           header, route, registry, default — one answer
+  C05_F07b_inside                          what the code answers inside F07b
+  C05_F07b_key_produced                    the part of F07b on which the property holds nevertheless
   C05_absent_accept                        FULL: no Accept header ⇒ the first produced type, whatever the default
   C05_no406                                FULL, for every header, inside F07b as well (needs only: the default
                                            type, when set, has a writer — false for MIME_ZIP on a stock
@@ -126,16 +141,64 @@ theorem C05_no406_admitted (a : Str) (P reg : List Str) (d : Str)
     (hwf : Spec.wfMime P reg = true) (hd : Spec.defaultOK reg d = true) (_hadm : routerAdmits a P = true) :
     entityWriter a P reg d ≠ [] := C05_no406 a P reg d hwf hd
 
-/-- the same request always gets the same representation: whatever the iteration order of the
-    registry map, there is one possible writer -/
-theorem C05_function_partial (a : Str) (P reg : List Str) (d : Str)
-    (hwf : Spec.wfMime P reg = true) (hadm : routerAdmits a P = true)
-    (h07b : Spec.F07b a P reg = false) :
-    ∀ m ∈ entityWriter a P reg d, ∀ m' ∈ entityWriter a P reg d, m = m' := by
-  obtain ⟨x, _, hx⟩ := C05_best_partial a P reg d hwf hadm h07b
-  intro m hm m' hm'
-  rw [hx, List.mem_singleton] at hm hm'
-  rw [hm, hm']
+/-- The same request always gets the same representation: whatever the iteration order of the
+    registry map, there is one possible writer.  FULL statement since 8b400b4 — every header (inside
+    F07b as well), every Produces list and registry (no well-formedness needed), every default;
+    until then it held outside F07b only (`C05_function_partial`). -/
+theorem C05_function (a : Str) (P reg : List Str) (d : Str) :
+    ∀ m ∈ entityWriter a P reg d, ∀ m' ∈ entityWriter a P reg d, m = m' :=
+  entityWriter_function a P reg d
+
+/-- What the code answers inside F07b: the registered key that the reverse lookup finds in the raw
+    header value — it occurs there, no registered key occurs earlier, none that starts at the same
+    position is longer (`Str.firstLongest`; an exact key cannot be: a header inside F07b has a `;`)
+    —, and, when no registered key occurs in the header at all, the default type's writer (406 if
+    it has none), the first produced type if no default is set. -/
+theorem C05_F07b_inside (a : Str) (P reg : List Str) (d : Str) (hwf : Spec.wfMime P reg = true)
+    (h07b : Spec.F07b a P reg = true) :
+    (accessorAt reg a ≠ [] → entityWriter a P reg d = accessorAt reg a) ∧
+    (accessorAt reg a = [] →
+      entityWriter a P reg d = if defaultSet d = true then accessorAt reg d else [P.headD []]) ∧
+    (∀ k ∈ reg, containsSub k a = true → accessorAt reg a ≠ []) ∧
+    (a ∉ reg → ∀ k ∈ accessorAt reg a, k ∈ reg ∧ firstLongest reg a k = true) := by
+  have h := wf_of hwf
+  refine ⟨entityWriter_of_F07b_key d h h07b, entityWriter_of_F07b_no_key d h h07b,
+    fun k hk hc => accessorAt_ne_nil_of_contains hk hc, ?_⟩
+  intro ha k hk
+  unfold accessorAt at hk
+  rw [if_neg (by simpa using ha)] at hk
+  exact List.mem_filter.mp hk
+
+/-- … hence the property HOLDS on the part of F07b where the key that occurs first in the raw
+    header is a produced type (no well-formed range being satisfiable, the property demands no more
+    than a produced type with a writer, the same on every dispatch) -/
+theorem C05_F07b_key_produced (a : Str) (P reg : List Str) (d : Str) (hwf : Spec.wfMime P reg = true)
+    (h07b : Spec.F07b a P reg = true) (k : Str) (hk : k ∈ accessorAt reg a) (hP : k ∈ P)
+    (obs : List Spec.MimeObs) (hobs : ∀ o ∈ obs, ∃ m ∈ entityWriter a P reg d, o = .ct m) :
+    Spec.c05Holds a P reg obs = true := by
+  have h := wf_of hwf
+  have hne : accessorAt reg a ≠ [] := fun hn => by rw [hn] at hk; cases hk
+  have hw := entityWriter_of_F07b_key d h h07b hne
+  have hall : ∀ o ∈ obs, o = .ct k := by
+    intro o ho
+    obtain ⟨m, hm, rfl⟩ := hobs o ho
+    rw [hw] at hm
+    rw [accessorAt_function reg a m hm k hk]
+  have hbest : Spec.best a P reg = none := by
+    simp only [Spec.F07b, Bool.and_eq_true, Option.isNone_iff_eq_none] at h07b
+    exact h07b.2
+  unfold Spec.c05Holds
+  simp only [Bool.and_eq_true, List.all_eq_true]
+  constructor
+  · intro o ho
+    rw [hall o ho]
+    simp [Spec.c05ObsOK, hbest, hP, h.sub k hP]
+  · cases obs with
+    | nil => rfl
+    | cons o os =>
+      simp only [List.all_eq_true, beq_iff_eq]
+      intro x hx
+      rw [hall x (List.mem_cons_of_mem _ hx), hall o List.mem_cons_self]
 
 /-- optional whitespace next to `,` `;` and a parameter's `=` is irrelevant: the ranked list of ranges
     is a function of the whitespace-free normal form of the header (all headers, no hypothesis) -/
@@ -224,17 +287,36 @@ theorem C05_F07_fixed :
       Spec.c05Holds [] [mimeJSON] reg [.notAcceptable] = false) := by
   decide
 
-/-- F07b: `Accept: application/json;q=x,application/xml` on a JSON-only route: the router admits it
-    (it ignores q), the only satisfiable range is dropped for its unparsable q, and the writer is any
-    registered key that is a substring of the raw header, depending on map iteration order —
-    `application/xml` and `application/x` are not produced, and two dispatches may differ -/
+/-- F07b: `Accept: application/xml,application/json;q=x` on a JSON-only route: the router admits it
+    on its second element (it ignores q), that element — the only satisfiable one — is dropped for
+    its unparsable q, and the writer is the registered key that occurs first in the raw header
+    (`application/xml`, at position 0; `application/x` starts there too and is shorter;
+    `application/json` occurs later): a type the route does not produce, on every dispatch -/
 theorem C05_F07b_witness :
-    let a := "application/json;q=x,application/xml".toList
+    let a := "application/xml,application/json;q=x".toList
     let P := [mimeJSON]; let reg := harnessReg
     Spec.wfMime P reg = true ∧ Spec.defaultOK reg [] = true ∧ routerAdmits a P = true ∧
-      Spec.F07b a P reg = true ∧
-      entityWriter a P reg [] = [mimeJSON, mimeXML, "application/x".toList] ∧ mimeXML ∉ P ∧
-      Spec.c05Holds a P reg [.ct mimeXML] = false ∧ Spec.c05Holds a P reg [.ct mimeJSON, .ct mimeXML] = false := by
+      Spec.F07b a P reg = true ∧ accessorAt reg a = [mimeXML] ∧
+      entityWriter a P reg [] = [mimeXML] ∧ mimeXML ∉ P ∧
+      Spec.c05Holds a P reg [.ct mimeXML, .ct mimeXML, .ct mimeXML] = false := by
+  decide
+
+/-- The FORMER first witness of F07b as a regression: `Accept: application/json;q=x,application/xml`
+    on a JSON-only route.  Still inside F07b (the only satisfiable range is dropped), but the
+    raw-header lookup — which answered with `application/json`, `application/xml` or `application/x`
+    in map iteration order before 8b400b4, two dispatches differing — now finds
+    `application/json`, the key that occurs first: produced, the same on every dispatch, the
+    predicate holds; it still rejects what the unrepaired code could answer. -/
+theorem C05_F07b_order_fixed :
+    let a := "application/json;q=x,application/xml".toList
+    let P := [mimeJSON]; let reg := harnessReg
+    Spec.wfMime P reg = true ∧ routerAdmits a P = true ∧ Spec.F07b a P reg = true ∧
+      (reg.filter (fun k => containsSub k a)) = [mimeJSON, mimeXML, "application/x".toList] ∧
+      accessorAt reg a = [mimeJSON] ∧ entityWriter a P reg [] = [mimeJSON] ∧
+      Spec.c05Holds a P reg [.ct mimeJSON, .ct mimeJSON, .ct mimeJSON] = true ∧
+      Spec.c05Holds a P reg [.ct mimeXML, .ct mimeXML, .ct mimeXML] = false ∧
+      Spec.c05Holds a P reg [.ct "application/x".toList] = false ∧
+      Spec.c05Holds a P reg [.ct mimeJSON, .ct mimeXML, .ct mimeJSON] = false := by
   decide
 
 /-- inside F07b the default type still overrides Produces (`*/*;q=x`, default JSON, XML-only route):
@@ -363,7 +445,7 @@ example : ∃ b, Spec.best a P reg = some b ∧ entityWriter a P reg mimeJSON = 
 example : ∀ m ∈ entityWriter a P reg mimeJSON, m ∈ P ∧ m ∈ reg :=
   C05_member_partial a P reg mimeJSON hwf hadm h07b
 example : ∀ m ∈ entityWriter a P reg mimeJSON, ∀ m' ∈ entityWriter a P reg mimeJSON, m = m' :=
-  C05_function_partial a P reg mimeJSON hwf hadm h07b
+  C05_function a P reg mimeJSON
 example : entityWriter a P reg mimeJSON ≠ [] := C05_no406 a P reg mimeJSON hwf (by decide)
 example : entityWriter a P reg mimeJSON ≠ [] := C05_no406_admitted a P reg mimeJSON hwf (by decide) hadm
 example : entityWriter a P reg mimeZIP ≠ [] := C05_no406_partial a P reg mimeZIP hwf hadm h07b
@@ -400,9 +482,20 @@ example : entityWriter b [mimeXML, mimeJSON] [mimeJSON, mimeXML] [] = entityWrit
 example : entityWriter b' [mimeXML, mimeJSON] [mimeJSON, mimeXML] [] = [mimeJSON] := by decide
 
 /-- `C05_F07b_class` on the header of `C05_F07b_witness` (its hypothesis `F07b = true` is satisfiable) -/
-example : ∃ piece ∈ split ',' "application/json;q=x,application/xml".toList,
+example : ∃ piece ∈ split ',' "application/xml,application/json;q=x".toList,
     (mediaOf piece = starStar ∨ mediaOf piece ∈ [mimeJSON]) ∧ rangeOf piece = none :=
   C05_F07b_class _ [mimeJSON] harnessReg (by decide) (by decide)
+
+/-- `C05_F07b_inside` on the headers of the witnesses (a key occurs / none does), and
+    `C05_F07b_key_produced` on the former first witness (all hypotheses satisfiable) -/
+example : entityWriter "application/xml,application/json;q=x".toList [mimeJSON] harnessReg [] =
+    accessorAt harnessReg "application/xml,application/json;q=x".toList :=
+  (C05_F07b_inside _ [mimeJSON] harnessReg [] (by decide) (by decide)).1 (by decide)
+example : entityWriter "*/*;q=x".toList [mimeXML] harnessReg mimeJSON =
+    if defaultSet mimeJSON = true then accessorAt harnessReg mimeJSON else [[mimeXML].headD []] :=
+  (C05_F07b_inside _ [mimeXML] harnessReg mimeJSON (by decide) (by decide)).2.1 (by decide)
+example : Spec.c05Holds "application/json;q=x,application/xml".toList [mimeJSON] harnessReg [.ct mimeJSON, .ct mimeJSON] = true :=
+  C05_F07b_key_produced _ [mimeJSON] harnessReg [] (by decide) (by decide) mimeJSON (by decide) (by decide) _ (by decide)
 
 end C05Example
 
